@@ -30,11 +30,11 @@ RULE = ("cases: package configurations; executions: convolve_model_dir on both f
         "non-trivial = distinct configurations with >= 2 models")
 ASSUMPTIONS = ["all SEDs of a package share the wavelength grid", "finite value alphabets"]
 REQUIRED_CLASSES = ['permuted-table', 'filenames-disagree-with-model-names', 'listing-reversed', 'sed-wav-ascending', 'three-filters', 'single-model', 'eight-models',
-                    'five-apertures', 'formats-compared', 'fits-compared', 'remove-resolved', 'all-permutations-4', 'apertures-in-other-unit', 'seds-in-subdirs-or-gz', 'parameters-gz', 'seds-stored-in-Jy', 'seds-on-different-grids', 'single-real-aperture']
+                    'five-apertures', 'formats-compared', 'fits-compared', 'remove-resolved', 'all-permutations-4', 'apertures-in-other-unit', 'seds-in-subdirs-or-gz', 'parameters-gz', 'seds-stored-in-Jy', 'seds-on-different-grids', 'single-real-aperture', 'error-column-in-other-unit', 'convolve-after-listing']
 TIMEOUT = {'quick': 600, 'thorough': 3000}
 
 AXES = {'n_models': [3, 1, 2, 5, 8], 'n_ap': [2, 1, 3, 5], 'perm': ['identity', 'reversed', 'rotated', 'swap01'], 'fnames': ['same', 'reversed'],
-        'listing': ['sorted', 'reversed'], 'sord': ['wav-desc', 'wav-asc'], 'nfilt': [1, 3], 'rr': [False, True], 'ap_unit': ['AU', 'pc', 'cm'], 'layout': ['flat', 'subdir', 'gz', 'subdir+gz'], 'par_gz': [False, True], 'funit': ['mJy', 'Jy'], 'grids': ['same', 'interior'], 'single_ap_real': [False, True]}
+        'listing': ['sorted', 'reversed'], 'sord': ['wav-desc', 'wav-asc'], 'nfilt': [1, 3], 'rr': [False, True], 'ap_unit': ['AU', 'pc', 'cm'], 'layout': ['flat', 'subdir', 'gz', 'subdir+gz'], 'par_gz': [False, True], 'funit': ['mJy', 'Jy'], 'grids': ['same', 'interior'], 'single_ap_real': [False, True], 'err_unit': ['same', 'other']}
 
 
 def setup(tier, seed):
@@ -42,7 +42,7 @@ def setup(tier, seed):
     out = [c for c in out if not (c['n_models'] == 1 and c['perm'] != 'identity') and not (c['n_models'] == 2 and c['perm'] == 'rotated')]
     for n in (2, 3, 4):
         for p in itertools.permutations(range(n)):
-            out.append({'fam': 'allperm', 'n_models': n, 'n_ap': 2, 'perm': list(p), 'fnames': 'same', 'listing': 'sorted', 'sord': 'wav-desc', 'nfilt': 1, 'rr': False, 'ap_unit': 'AU', 'layout': 'flat', 'par_gz': False, 'funit': 'mJy', 'grids': 'same', 'single_ap_real': False})
+            out.append({'fam': 'allperm', 'n_models': n, 'n_ap': 2, 'perm': list(p), 'fnames': 'same', 'listing': 'sorted', 'sord': 'wav-desc', 'nfilt': 1, 'rr': False, 'ap_unit': 'AU', 'layout': 'flat', 'par_gz': False, 'funit': 'mJy', 'grids': 'same', 'single_ap_real': False, 'err_unit': 'same'})
     return {'tier': tier, 'seed': seed, 'cases': out}
 
 
@@ -166,6 +166,8 @@ def run_case(ctx, case, rec, d):
     fscale = 1.0 if funit == 'mJy' else 1e-3        # stored number = physical mJy value * fscale
     if funit != 'mJy':
         rec.cls('seds-stored-in-Jy')
+    if case.get('err_unit', 'same') != 'same':
+        rec.cls('error-column-in-other-unit')
     if layout != 'flat':
         rec.cls('seds-in-subdirs-or-gz')
     if case.get('par_gz'):
@@ -181,7 +183,8 @@ def run_case(ctx, case, rec, d):
     # per-file: file names sorted differently from the model names when asked
     for m, nm in enumerate(base_names):
         fname = ('f%02d_sed.fits' % (n_models - 1 - m)) if case['fnames'] == 'reversed' else None
-        pkgwriter.write_sed_file(md1, nm, (wav_m[m] if case['sord'] == 'wav-asc' else wav_m[m][::-1]), flux[m][:, idx_file] * fscale, err[m][:, idx_file] * fscale, unit=funit, apertures_au=ap_file, ap_unit=apu, filename=fname,
+        eunit, efac = (funit, 1.0) if case.get('err_unit', 'same') == 'same' else (('Jy', 1e-3) if funit == 'mJy' else ('mJy', 1e3))      # error column in the sibling unit
+        pkgwriter.write_sed_file(md1, nm, (wav_m[m] if case['sord'] == 'wav-asc' else wav_m[m][::-1]), flux[m][:, idx_file] * fscale, err[m][:, idx_file] * fscale * efac, unit=funit, err_unit=eunit, apertures_au=ap_file, ap_unit=apu, filename=fname,
                                  subdir=(nm[:4] if m % 2 else nm[:3] + '_') if 'subdir' in layout else None, gz=('gz' in layout and m != 0))
     # cube: cube order = parameter-table order (the format requires it)
     pkgwriter.write_parameters(md2, table_order, {'par1': np.arange(n_models)[perm] + 0.5}, gz=case.get('par_gz', False))
@@ -321,5 +324,23 @@ def run_case(ctx, case, rec, d):
             if not ok:
                 rec.violation('fit-variants|disagree|%s%s' % ('remove_resolved|' if case['rr'] else '', '%s-%s' % (key[0], 'memmap' if key[1] else 'nomemmap')),
                               {'variant': list(key), 'source': si}, {'reference_variant': list(ref_key), 'chi2_ref': a[2], 'chi2': b[2], 'sc_ref': a[1], 'sc': b[1]})
+    # ---- the package is used (fit, parameter listing) and then ANOTHER filter is convolved: the new file must follow the
+    # parameter-table order like the earlier ones
+    if n_models >= 2 and res.get(('v1', False)):
+        try:
+            import sedfitter
+            sedfitter.write_parameters(res[('v1', False)][0], os.path.join(d, 'listing.txt'), select_format=('A', 0))
+            fd = _mkfilter(np.linspace(nu_asc[3], nu_asc[5], 5), np.array([0.3, 1.0, 0.9, 0.6, 0.2]), 'FD', 2.2)
+            fd.normalize()
+            convolve_model_dir(md1, [fd])
+            namesD, ffD, eeD, fwD, faD = _read_conv(os.path.join(md1, 'convolved', 'FD.fits'), n_models, n_ap)
+            rec.trans(2)
+            rec.ev(n_models)
+            rec.cls('convolve-after-listing')
+            if namesD != table_order:
+                rec.violation('rows|order|v1|after-listing', {'filter': 'FD'}, {'rows': namesD, 'table_order': table_order, 'note': 'convolved after write_parameters had been called on this package'})
+        except Exception as e:
+            from mc.runner import exc_signature
+            rec.violation('convolve-after-listing|' + exc_signature(e), {'filter': 'FD'}, {'type': type(e).__name__, 'msg': str(e)[:300]})
     if case.get('_deviations') == 0:
         rec.sample({'config': {k: v for k, v in case.items()}, 'table_order': table_order, 'filters': bands, 'v1_rows': outputs['v1'][bands[0]][0], 'v1_flux_first_row': outputs['v1'][bands[0]][1][0]})
